@@ -408,3 +408,106 @@ def finish(ctx, results, explanation, assumptions, trusted_base):
           % (prop, ctx.tier, len(results), obligations, discharged, len(known_hits), len(viol),
              ctx.facts_info["hash"], "reused" if ctx.facts_info["reused"] else "fresh %.1fs" % ctx.facts_info["driver_s"]))
     return 1 if viol else 0
+
+
+def ok_return_blocks(body):
+    """blocks that assign an Ok(..) into the return place"""
+    out = []
+    for bi, si, s in body.assigns():
+        if s["p"]["l"] == 0 and "p" not in s["p"]:
+            rv = s["rv"]
+            if rv["r"] == "agg" and rv.get("ak") == "adt" and rv["adt"].endswith("result::Result") and rv["variant"] == "Ok":
+                out.append(bi)
+    return sorted(set(out))
+
+
+def match_table(body, discr_pred=None):
+    """for `match x { V1 => c1, ... }`-shaped functions: {variant meaning: constant assigned to _0}.
+    Follows the unique-successor chain from each switch target until an assignment to _0."""
+    table = {}
+    for bi, b in enumerate(body.blocks):
+        if bi in body.cleanup or b["t"]["k"] != "switch":
+            continue
+        term, outs = body.switch_info(bi)
+        if discr_pred is not None and not discr_pred(term):
+            continue
+        for tgt, _lab, meaning in outs:
+            cur = tgt
+            val = None
+            for _ in range(12):
+                blk = body.blocks[cur]
+                found = False
+                for s in blk["s"]:
+                    if s["k"] == "as" and s["p"]["l"] == 0 and "p" not in s["p"]:
+                        val = body.term_rvalue(s["rv"])
+                        found = True
+                if found:
+                    break
+                succ = body.succ_edges(cur)
+                if len(succ) != 1:
+                    break
+                cur = succ[0][0]
+            if val is not None:
+                table[meaning] = val
+        break
+    return table
+
+
+def lock_write_sites(body, field, methods=("::write", "::lock", "::borrow_mut")):
+    """assignment statements that store through a guard obtained from <field>.write()/lock():
+    returns [(bi, si, stmt, value_term)]"""
+    out = []
+    for bi, si, s in body.assigns():
+        p = s["p"]
+        if "p" not in p:
+            continue
+        base = body.term_local(p["l"])
+        hit = False
+        for t in mir.walk(base):
+            if t[0] == "call" and any(t[1].endswith(m) for m in methods) and t[2]:
+                fp = mir.field_path(t[2][0])
+                if fp is not None and fp.split(".")[-1] == field:
+                    hit = True
+                    break
+        if hit:
+            out.append((bi, si, s, body.term_rvalue(s["rv"])))
+    return out
+
+
+def atomic_sites(body, field, op):
+    """calls Atomic*::<op>(<path ending in .field>, ...) -> [(bi, term, args terms)]"""
+    out = []
+    for bi, t, path in body.calls():
+        if not path or not path.startswith("std::sync::atomic::") or not path.endswith("::" + op):
+            continue
+        if not t["a"]:
+            continue
+        a0 = body.term_operand(t["a"][0])
+        fp = mir.field_path(a0)
+        if fp is not None and fp.split(".")[-1] == field:
+            out.append((bi, t, [body.term_operand(a) for a in t["a"]]))
+    return out
+
+
+def must_pass(body, site_block, via_blocks, starts=(0,)):
+    """True iff every path from starts to site_block goes through one of via_blocks"""
+    if site_block in via_blocks:
+        return True
+    return body.path_to(list(starts), site_block, cut_blocks=set(via_blocks)) is None
+
+
+def always_followed_by(body, from_block, via_blocks):
+    """True iff no path from from_block reaches a `return` terminator without passing via_blocks"""
+    via = set(via_blocks)
+    if from_block in via:
+        return True
+    reach = body.reachable([t for t, _ in body.succ_edges(from_block)], cut_blocks=via)
+    for bi in reach:
+        if body.blocks[bi]["t"]["k"] == "ret":
+            return False
+    return True
+
+
+def is_atomic_load(term, field):
+    return (term[0] == "call" and term[1].startswith("std::sync::atomic::") and term[1].endswith("::load")
+            and term[2] and (mir.field_path(term[2][0]) or "").split(".")[-1] == field)
